@@ -96,6 +96,7 @@ func init() {
 		{"IA", ifaceOf((*zoo.IA)(nil))}, {"IB", ifaceOf((*zoo.IB)(nil))}, {"IAB", ifaceOf((*zoo.IAB)(nil))},
 		{"IAll", ifaceOf((*zoo.IAll)(nil))}, {"IC", ifaceOf((*zoo.IC)(nil))}, {"IComp", ifaceOf((*zoo.IComp)(nil))},
 		{"any", ifaceOf((*any)(nil))},
+		{"IZst", ifaceOf((*zoo.IZst)(nil))},
 	}
 	Types["string"] = reflect.TypeOf("")
 	Types["int"] = reflect.TypeOf(0)
@@ -158,6 +159,12 @@ func GenProviders(t *rapid.T, o ProvOpts) []ProvSpec {
 		p := ProvSpec{Kind: rapid.SampledFrom(o.Kinds).Draw(t, "kind")}
 		// at most one unnamed instance per type (default names are per type)
 		wantName := rapid.IntRange(0, 2).Draw(t, "named") > 0
+		if zoo.ProviderKinds[p.Kind].NoName {
+			if unnamed[p.Kind] {
+				continue
+			}
+			wantName = false
+		}
 		if unnamed[p.Kind] {
 			wantName = true
 		}
